@@ -10,7 +10,8 @@ RULE = ('queue machine: real Queue + real backend + scripted relay, every storag
         'announce, clean restart) followed by a fair drain. non-trivial = >=2 attempts of one message with a mixed '
         'per-recipient outcome or retry exhaustion, or an announcement/flush/restart; distinct = distinct (config, actions)')
 ASSUMPTIONS = ['an address may be named twice in one message (verdicts are per address)', 'fake redis / object store fidelity (see DESIGN 1.2)',
-               'relay outcomes honour the Relay.attempt contract (mapping keys = recipients)']
+               'relay outcomes honour the Relay.attempt contract (mapping keys = recipients)',
+               'storage operations succeed, except in the storage-fault family where one recording operation (set_recipients_delivered, increment_attempts, set_timestamp) fails once and only the clauses of C03 are judged, within the same process']
 EXHAUSTIVE_NOTE = 'per-recipient outcome histories over <=3 rounds, serial schedule (see rule)'
 
 OWN = {'C03'}
@@ -44,6 +45,7 @@ def run_shard(ctx):
     qmgen.drive_histories(ctx, OWN, qmgen.restart_race_history(), ctx.n(600, 10000), nontrivial, salt=8)
     qmgen.drive_histories(ctx, OWN, qmgen.saturated_pool_history(), ctx.n(600, 10000), nontrivial, salt=9)
     qmgen.drive_histories(ctx, OWN, qmgen.announce_window_history(), ctx.n(800, 12000), nontrivial, salt=11)
+    qmgen.drive_histories(ctx, OWN, qmgen.storage_fault_history(), ctx.n(800, 12000), nontrivial, salt=12)
 
 
 def replay(case):
